@@ -180,8 +180,8 @@ def run(ctx):
                             nm_ok = True
         ctx.check(nm_ok, "R03.3", fnkey(b) + "#no-metric-flag-suppresses-definition", loc(b), "the NoMetric flag no longer suppresses the metric definition (or is not branched on)")
     # ------------------------------------------------------------------ R03.4 namespace replication siblings
-    fin = [b for b in F.all_bodies(CR) if c02.in_scope(b) and len([c for c in b.calls() if c.name == "write_all_vectored"]) >= 2]
-    ctx.floor("R03.4", "bodies with both emission branches", len(fin), 1)
+    fin = [b for b in F.all_bodies(CR) if c02.in_scope(b) and b.name != "write_all_vectored" and [c for c in b.calls() if c.name == "write_all_vectored"]]
+    ctx.floor("R03.4", "record emission sites (per-set and global)", sum(len([c for c in b.calls() if c.name == "write_all_vectored"]) for b in fin), 2)
     for b in fin:
         dom = b.dominators()
         writes = [c for c in b.calls() if c.name == "write_all_vectored"]
@@ -233,10 +233,18 @@ def run(ctx):
     ctx.check(len(val_global) == 1 and len(val_set) == 1, "R03.6", "value-buffer-slots", "metrique-writer-format-emf/src/emf.rs",
               "could not identify the value buffer of the global record / of a per-set record at the routing site (%s / %s)" % (sorted(val_global), sorted(val_set)),
               "value buffers: global %s, per dimension set .%s" % (sorted(val_global), sorted(val_set)))
+    n_g = n_s = n_empt = 0
+
+    def always_writes(sb):
+        ws = [c.bb for c in sb.calls() if c.name == "write_all_vectored"]
+        return bool(ws) and sb.must_pass(ws)
+
     for b in fin:
         pr = Prov(b)
         key = fnkey(b)
-        writes = [c for c in b.calls() if c.name == "write_all_vectored"]
+        # emission sites of this body: the sends themselves and calls of local helpers that always send
+        writes = [c for c in b.calls() if c.name == "write_all_vectored" or
+                  any(sb in fin and sb is not b and always_writes(sb) for sb in local_callee_bodies(F, c))]
         succ_exit = [i for i in b.live_blocks() for st in b.stmts(i) if st["k"] == "assign" and st["lhs"]["l"] == 0 and not st["lhs"].get("p")
                      and st["rv"]["k"] == "agg" and st["rv"].get("variant") == "Ok"]
         ctx.floor("R03.6", "success exits of the emission body", len(succ_exit), 1)
@@ -286,7 +294,7 @@ def run(ctx):
             return seen
 
         empties = [c for c in b.calls() if c.name == "is_empty" and "PrefixedStringBuf" in (c.def_ or "")]
-        ctx.floor("R03.6", "emptiness guards on record buffers", len(empties), 2)
+        n_empt += len(empties)
         e_global, e_set = set(), set()
         for c in empties:
             o = pr.operand(c.args[0])
@@ -296,7 +304,6 @@ def run(ctx):
                 e_global.update(bool_edges(c))
             if sa and sa <= val_set and not ga:
                 e_set.update(bool_edges(c))
-        n_g = n_s = 0
         for w in writes:
             if w.bb in b.reachable_after(w.bb):
                 # a per-set record: from the start of an iteration back to the loop head without the write
@@ -318,8 +325,6 @@ def run(ctx):
                           "the record without per-metric dimensions can be skipped on a successful path that does not pass the 'value buffer %s is empty' "
                           "outcome: values routed to it (for example no-metric values, which leave the directive empty) would appear nowhere" % sorted(val_global),
                           "every successful path around the write passes the empty-value-buffer edge")
-        ctx.floor("R03.6", "global record writes", n_g, 1)
-        ctx.floor("R03.6", "per-set record writes", n_s, 1)
         # life sign: every successful path performs at least one write (string properties of an entry without metrics appear somewhere)
         wb = {w.bb for w in writes}
         flag_true_edges = set()
@@ -337,6 +342,9 @@ def run(ctx):
                   "a successful path through the emission writes no record at all (a flag that is only set next to a write was taken as false on "
                   "it): an entry without routed metrics would lose its string properties and timestamp",
                   "no write-free successful path (write-witness flag edges: %d)" % len(flag_true_edges))
+    ctx.floor("R03.6", "emptiness guards on record buffers", n_empt, 2)
+    ctx.floor("R03.6", "global record writes", n_g, 1)
+    ctx.floor("R03.6", "per-set record writes", n_s, 1)
     # ------------------------------------------------------------------ R03.5 dimension sets rebuilt per call
     import rules.c14 as c14
     before = len(ctx.instances)
